@@ -204,11 +204,15 @@ TEXT['C17'] = dict(
               'executed symbolically against a spec function for the trapezoid weights; bounded run-time checking under simulated MPI')
 TEXT['C18'] = dict(
     category='other',
-    text='Bounded stand-in only so far: checkpoint write/load across process counts (bitwise), latest/requested checkpoint selection, '
-         'constants round trip over key orders, and N+M vs N-then-M runs of the real driver for several save intervals.',
+    text='Deductive part: the step / save counters of fullSimulation.main are sliced mechanically out of the driver on every run (the '
+         'slicing rule and the dropped lines are in the evidence) and verified with a loop invariant for every save interval >= 1, '
+         'every start and stop time and fresh or restarted runs: no division by a zero loop count, and when the driver returns the '
+         'last checkpoint written is the one of the final time. Everything else is the bounded stand-in: checkpoint write/load across '
+         'process counts (bitwise), latest/requested checkpoint selection, constants round trip over key orders, and N+M vs '
+         'N-then-M runs of the real driver for several save intervals.',
     note=BOUNDED_NOTE + 'h5py mpio driver replaced by a documented stand-in. Found and fixed three genuine defects (fix: 516e71a, '
          '8d7565c and the float step counter).',
-    technique='bounded run-time checking of the real driver and I/O paths under simulated MPI')
+    technique='loop-invariant proof on a mechanical counter slice of the driver; bounded run-time checking of the real driver and I/O paths under simulated MPI')
 
 TEXT['C14'] = dict(
     category='other',
@@ -218,7 +222,7 @@ TEXT['C14'] = dict(
          'degrees, cell counts, coefficient functions, boundary mixes and process grids. No contract within reach expresses the weak '
          'form without restating the sparse assembly (DESIGN C14).',
     note=BOUNDED_NOTE + 'Found and fixed the missing right-hand-side factor of solveEquationForFunction.',
-    technique='bounded run-time checking against an independent dense Galerkin solve')
+    technique='callee-precondition wiring contract for the mode loop (trace abstraction, opaque sparse matrices); bounded run-time checking against an independent dense Galerkin solve')
 TEXT['C15'] = dict(
     category='other',
     text='Deductive part (one clause: Dirichlet end coefficients stay zero / modes are solved independently): the mode loop of solveEquation is verified, in the trace abstraction with the sparse matrices opaque, to enter the per-mode solver only with both end coefficients of the shared coefficient buffer equal to zero and with the global mode index of the local row - _solveMode carries this as its precondition and havocs the buffer (it writes the coefficient range of its mode, which contains the ends for a Neumann mode), so the loop has to re-establish it before every call; the seeded change (reset hoisted out of the loop) is refuted at that obligation. '
@@ -226,7 +230,7 @@ TEXT['C15'] = dict(
          'compared with an explicit DFT and a dense per-mode solve (m=0 convention for chi in {0,1}); realness, round trip, equilibrium '
          'fixed point.',
     note=BOUNDED_NOTE + 'FFT round trip identity is the contract of scipy.fftpack (assumed in the deductive plan).',
-    technique='bounded run-time checking against an independent mode-by-mode oracle under simulated MPI')
+    technique='callee-precondition wiring contract for the mode loop (trace abstraction); bounded run-time checking against an independent mode-by-mode oracle under simulated MPI')
 
 TEXT['C08'] = dict(
     category='other',
